@@ -212,7 +212,7 @@ def run(tier, seed):
         "with <= D absences and over all single absentees (project, each worker, each facility): no progress of non-automatic tasks, no new allocation, ABSENCE and zero cost logged, automatic "
         "progress iff flag, absent resource contributes nothing; (differential) every absence list that is a subset (size <= bound) of steps 0..makespan+1 plus indices far beyond the end, "
         "on all 2-task workflows (4 kinds) and FS/SS/FF 3-task workflows without component-bound automatic tasks, flag off: logs after simulate(absence=L); remove_absence_time_list() must equal "
-        "the logs of simulate(absence=[]); non-trivial = distinct project-absence states / distinct in-range absence lists",
+        "the logs of simulate(absence=[]) - also when the first run is stopped right after its first absence step and continued; plus literal lists in any order with repeats, backward runs with both flag values, unit_time 2/3 with off-grid absence times (step-kind clause), absence lists edited between and during runs; non-trivial = distinct project-absence states / distinct in-range absence lists",
         "bounds": {"H": H, "D": D, "monitor_models": len(mi), "literal_list_runs(unsorted/repeated/beyond-end)": len(li) + len(lit2), "differential_models": len(di)},
         "assumptions": ["differential compares every log, time, costs and status (not live scratch state) and is claimed with the auto flag off"],
     }
